@@ -485,14 +485,22 @@ fn failing_fd_sink() -> std::fs::File {
 }
 
 /// Scripted reader: delivers `first` bytes on the first call (through the slice's own write
-/// path), then fails with a hard error.
+/// path), then fails with a hard error. Each of the two steps is preceded by `eintr` calls that
+/// report an interruption without touching the buffer (what a caller's stream over a socket does).
 struct FailAfter {
     data: Vec<u8>,
     first: usize,
     calls: usize,
+    eintr: usize,
+    pending: usize,
 }
 impl ReadVolatile for FailAfter {
     fn read_volatile<B: BitmapSlice>(&mut self, buf: &mut VolatileSlice<B>) -> Result<usize, VolatileMemoryError> {
+        if self.pending > 0 {
+            self.pending -= 1;
+            return Err(VolatileMemoryError::IOError(std::io::Error::from(std::io::ErrorKind::Interrupted)));
+        }
+        self.pending = self.eintr;
         self.calls += 1;
         if self.calls == 1 {
             let n = self.first.min(buf.len()).min(self.data.len());
@@ -769,9 +777,10 @@ fn slice_op<B: Bitmap + 'static, S: BitmapSlice>(w: &mut World, gm: &GuestMemory
         }
         68..=71 => {
             let first = r.usize_below(len + 1);
-            let mut src = FailAfter { data: payload[..len].to_vec(), first, calls: 0 };
+            let eintr = if r.chance(1, 2) { 0 } else { 1 + r.usize_below(3) };
+            let mut src = FailAfter { data: payload[..len].to_vec(), first, calls: 0, eintr, pending: eintr };
             let _ = s.read_exact_volatile_from(off, &mut src, len);
-            route = "read_exact_volatile_from(fails-after-partial-fill)";
+            route = if eintr == 0 { "read_exact_volatile_from(fails-after-partial-fill)" } else { "read_exact_volatile_from(eintr+partial-fill+eintr+hard-error)" };
         }
         // ---- non-writing operations
         72..=76 => {
